@@ -226,74 +226,57 @@ Lemma sum_single_pass l1 l2 :
 Proof. apply fold_left_app. Qed.
 
 (* ---- clipping ---- *)
-Lemma clip_pos_norm xv c n : 0 < n ->
-  clip_model (Some n) (vlift xv) (Some c) = vlift (map (fun t => Qmin 1 (c / n) * t) xv).
-Proof.
-  intros Hn. unfold clip_model. assert (N : ~ n == 0) by lra. apply Qeq_bool_false_iff in N. rewrite N.
-  unfold tree_clip_by_global_norm. cbn [NanQ.div NanQ.of_Q]. rewrite N. cbn [NanQ.min NanQ.lift2].
-  unfold vlift. rewrite !map_map. reflexivity.
-Qed.
+(* scale = where(global_norm > max_norm, max_norm / global_norm, 1) *)
+Definition clip_scale (c n : Q) : Q := if Qltb c n then c / n else 1.
 
-Lemma clip_zero_norm xv c : 0 < c ->
-  clip_model (Some 0) (vlift xv) (Some c) = vlift (map (fun t => 1 * t) xv).
-Proof.
-  intros Hc. unfold clip_model. cbn [Qeq_bool]. change (Qeq_bool 0 0) with true. cbv iota.
-  apply Qltb_lt in Hc. rewrite Hc. unfold vlift. rewrite !map_map. reflexivity.
-Qed.
-
-Definition clip_scale (c n : Q) : Q := if Qeq_bool n 0 then 1 else Qmin 1 (c / n).
-
-Lemma clip_is_scale xv c n : 0 < c -> 0 <= n ->
+Lemma clip_is_scale xv c n : 0 <= c -> 0 <= n ->
   clip_model (Some n) (vlift xv) (Some c) = vlift (vscale (clip_scale c n) xv).
 Proof.
-  intros Hc Hn. unfold clip_scale. destruct (Qeq_bool n 0) eqn:E.
-  - apply Qeq_bool_iff in E. unfold clip_model. apply Qeq_bool_iff in E. rewrite E.
-    apply Qltb_lt in Hc. rewrite Hc. unfold vlift, vscale. rewrite !map_map. reflexivity.
-  - apply Qeq_bool_false_iff in E. rewrite clip_pos_norm by lra. reflexivity.
+  intros Hc Hn. unfold clip_model, tree_clip_by_global_norm, clip_scale.
+  cbn [NanQ.gtb NanQ.ltb]. destruct (Qltb c n) eqn:E; cbn [NanQ.where_].
+  - apply Qltb_lt in E. assert (N : ~ n == 0) by lra. rewrite (NanQ.div_Some c n N).
+    unfold vlift, vscale. rewrite !map_map. reflexivity.
+  - unfold vlift, vscale. rewrite !map_map. reflexivity.
 Qed.
 
-Lemma clip_scale_range c n : 0 < c -> 0 <= n -> 0 < clip_scale c n <= 1 /\ clip_scale c n * n <= c.
+Lemma clip_scale_range c n : 0 <= c -> 0 <= n ->
+  0 <= clip_scale c n <= 1 /\ (0 < c -> 0 < clip_scale c n) /\ clip_scale c n * n <= c.
 Proof.
-  intros Hc Hn. unfold clip_scale. destruct (Qeq_bool n 0) eqn:E.
-  - apply Qeq_bool_iff in E. rewrite E. lra.
-  - apply Qeq_bool_false_iff in E. assert (Hn' : 0 < n) by lra.
-    assert (Hq : 0 < c / n) by (apply Qlt_shift_div_l; lra).
-    pose proof (Q.le_min_l 1 (c / n)). pose proof (Q.le_min_r 1 (c / n)).
-    assert (0 < Qmin 1 (c / n)) by (apply Q.min_glb_lt; lra).
-    split; [lra|].
-    assert (c / n * n == c) by (field; lra). nra.
+  intros Hc Hn. unfold clip_scale. destruct (Qltb c n) eqn:E.
+  - apply Qltb_lt in E. assert (Hn' : 0 < n) by lra.
+    assert (Hq : 0 <= c / n) by (apply Qle_shift_div_l; lra).
+    assert (Hq1 : c / n <= 1) by (apply Qle_shift_div_r; lra).
+    assert (Hm : c / n * n == c) by (field; lra).
+    split; [lra|]. split; [|lra]. intros Hc'. apply Qlt_shift_div_l; lra.
+  - apply Qltb_ge in E. split; [lra|]. split; [intros; lra|lra].
 Qed.
 
-Lemma clip_norm_le_bound xv c n : 0 < c -> 0 <= n -> n * n == sumsq xv ->
+Lemma clip_norm_le_bound xv c n : 0 <= c -> 0 <= n -> n * n == sumsq xv ->
   exists y, clip_model (Some n) (vlift xv) (Some c) = vlift y /\ sumsq y <= c * c.
 Proof.
   intros Hc Hn Hnorm. eexists; split; [apply clip_is_scale; assumption|].
-  rewrite sumsq_vscale, <- Hnorm. destruct (clip_scale_range c n Hc Hn) as [[H1 H2] H3].
+  rewrite sumsq_vscale, <- Hnorm. destruct (clip_scale_range c n Hc Hn) as [[H1 H2] [_ H3]].
   set (s := clip_scale c n) in *. assert (0 <= s * n) by nra.
   assert (E : s * s * (n * n) == (s * n) * (s * n)) by ring. rewrite E. nra.
 Qed.
 
-Lemma clip_identity_below_bound xv c n : 0 < c -> 0 <= n -> n <= c ->
+Lemma clip_identity_below_bound xv c n : 0 <= c -> 0 <= n -> n <= c ->
   exists y, clip_model (Some n) (vlift xv) (Some c) = vlift y /\ y =v= xv.
 Proof.
   intros Hc Hn Hle. eexists; split; [apply clip_is_scale; assumption|].
-  assert (E : clip_scale c n == 1).
-  { unfold clip_scale. destruct (Qeq_bool n 0) eqn:E; [reflexivity|]. apply Qeq_bool_false_iff in E.
-    apply Q.min_l. apply Qle_shift_div_l; lra. }
+  assert (E : clip_scale c n = 1). { unfold clip_scale. apply Qltb_ge in Hle. rewrite Hle. reflexivity. }
   rewrite E. apply vscale_1.
 Qed.
 
-Lemma clip_keeps_direction xv c n : 0 < c -> 0 <= n ->
-  exists y s, clip_model (Some n) (vlift xv) (Some c) = vlift y /\ 0 < s <= 1 /\ y =v= vscale s xv /\
-              (c < n -> s == c / n).
+Lemma clip_keeps_direction xv c n : 0 <= c -> 0 <= n ->
+  exists y s, clip_model (Some n) (vlift xv) (Some c) = vlift y /\ 0 <= s <= 1 /\ (0 < c -> 0 < s) /\
+              y =v= vscale s xv /\ (c < n -> s == c / n).
 Proof.
   intros Hc Hn. exists (vscale (clip_scale c n) xv), (clip_scale c n).
-  split; [apply clip_is_scale; assumption|]. split; [apply clip_scale_range; assumption|].
-  split; [reflexivity|]. intros Hlt. unfold clip_scale.
-  assert (N : ~ n == 0) by lra. apply Qeq_bool_false_iff in N. rewrite N.
-  apply Q.min_r. apply Qle_shift_div_r; lra.
+  split; [apply clip_is_scale; assumption|]. destruct (clip_scale_range c n Hc Hn) as [R1 [R2 _]].
+  split; [exact R1|]. split; [exact R2|]. split; [reflexivity|].
+  intros Hlt. unfold clip_scale. apply Qltb_lt in Hlt. rewrite Hlt. reflexivity.
 Qed.
-
 
 (* ---- ownership: frame properties of the script ---- *)
 (* a store is well formed when every deleted location has been allocated *)
